@@ -66,6 +66,7 @@ const (
 	fGhostCap  = -22
 	fGhostMap  = -23
 	fMapPresent = -24
+	fMapVisited = -25 // ghost: key already yielded by the current range loop over the map
 )
 
 const maxLen = 1 << 48
